@@ -41,6 +41,9 @@ func decodeOneblockfileData(data []byte) (*pbbstream.Block, error) {
 	if err != nil && err != io.EOF {
 		return nil, fmt.Errorf("block reader failed: %w", err)
 	}
+	if blk == nil {
+		return nil, fmt.Errorf("one-block file holds no block")
+	}
 	return blk, nil
 }
 
@@ -53,6 +56,9 @@ func decodeOneblockfileToBlockMeta(data []byte) (*pbbstream.BlockMeta, error) {
 	blk, err := blockReader.ReadAsBlockMeta()
 	if err != nil && err != io.EOF {
 		return nil, fmt.Errorf("block meta reader failed: %w", err)
+	}
+	if blk == nil {
+		return nil, fmt.Errorf("one-block file holds no block")
 	}
 	return blk, nil
 }
